@@ -137,6 +137,10 @@ def rejected_actions(ctx):
         except Exception:  # noqa: BLE001
             continue
         bad = r.choice([a for a in range(8) if a not in desc['actions']])
+        # "outside the action space" is anything that is not one of its members: an Action left out of it, or not an Action at all
+        # (a gym-style index, a name, None, a member of another enum)
+        from gym_gridverse.geometry import Orientation
+        bad_value = envs.ACTS[bad] if r.random() < 0.6 else r.choice([bad, envs.ACTS[bad].name, None, Orientation.F, 8, -1, 2.0])
         gvdebug.reset_gv_debug(r.random() < 0.5)
         try:
             with impl.Journal(r.randrange(1 << 30)) as j:
@@ -152,14 +156,14 @@ def rejected_actions(ctx):
                     continue
                 draws = len(j.log)
                 try:
-                    env.step(envs.ACTS[bad])
+                    env.step(bad_value)
                     raised = None
                 except Exception as e:  # noqa: BLE001
                     raised = type(e).__name__
                 o2 = env.observation
-                case = {'env': desc, 'rejected_action': envs.ACTS[bad].name}
+                case = {'env': desc, 'rejected_action': repr(bad_value)}
                 ctx.count('rejected action', raised or 'accepted')
-                ctx.case(('rejected', repr(desc), bad, k), True, None)
+                ctx.case(('rejected', repr(desc), repr(bad_value), k), True, None)
                 if raised != 'ValueError':
                     ctx.violation(f'an action outside the action space gave {raised or "no exception"} instead of ValueError', case)
                 elif wire.cstate(env.state) != s1:
